@@ -50,6 +50,10 @@ def do_case(ctx, inp):
             ctx.fail("wrong-constant", {"id": k, "got": [lo, hi], "want": want[k], "interpretation": interp_json(I)})
     if (int(top.lower), int(top.upper)) != (want[t["id"]],) * 2 or t["id"] not in res or res[t["id"]] != top:
         ctx.fail("evaluate-vs-top-entry", {"evaluate": [int(top.lower), int(top.upper)], "want": want[t["id"]]})
+    if inp.get("kin", True) and ctx.rng.random() < 0.35:
+        # models built from this one (its negation, an implication over it) are not touched by evaluating it
+        if kin_probe(ctx, o, lambda m: m.evaluate_propositions(render_interp(ctx.rng, I)), "evaluated", {"interpretation": interp_json(I)}):
+            return
     if inp.get("edit_results"):
         # what an evaluation returns is the caller's: the Bounds of an earlier result are edited in place (a caller widening
         # them for a report) — the next evaluation computes its own
@@ -94,6 +98,10 @@ def run(ctx):
     n_models = (250 if ctx.quick else 1500) * (3 if ctx.search else 1)
     for _ in range(n_models):
         a, o, t = gen_valid(ctx.rng, ctx.quick, prefix_p=0.2, empty_p=0.04)
+        if ctx.rng.random() < 0.15:
+            # the model is the OUTPUT of another operation (assume / reduce / negate / Not / Imply / a JSON, base64, pickle or
+            # deepcopy round trip, one or two of them) applied to a generated valid model
+            a, o, t = gen_derived(ctx.rng, ctx.quick); ctx.tags["derived-model-stream"] += 1
         if ctx.rng.random() < 0.12:
             a, o, t = gen_valid_signed_sum(ctx.rng)     # explicit signs against thresholds of either sign, leaves around zero
         elif ctx.rng.random() < 0.06:
